@@ -2,7 +2,7 @@
    oracle of C18.  Everything the OCaml runner of this property executes goes
    through run_case. *)
 From Coq Require Import ZArith List String.
-From ST Require Import Base.Ints Base.Value Base.F64 Model.NtpTime Model.Units Extract.GlueBase.
+From ST Require Import Base.Ints Base.Value Base.F64 Model.NtpTime Model.Units Model.UnitsOracle Extract.GlueBase.
 Import ListNotations.
 Open Scope string_scope.
 Open Scope Z_scope.
@@ -15,13 +15,15 @@ Definition glue_C18 (k : string) (a o : list value) : option verdict :=
         Some (functional [VZ sec; VZ usec] o (C18_timeval_ok n osec ousec))
     | _, _ => None end
   else if is k "units.ppm_of_freq" then
-    match a with
-    | [VZ fbits] => Some (functional [VZ (scaled_ppm_from_freq (f_of_bits fbits))] o true)
-    | _ => None end
+    match a, o with
+    | [VZ fbits], [VZ r] =>
+        Some (functional [VZ (scaled_ppm_from_freq (f_of_bits fbits))] o (C18_ppm_of_freq_ok (f_of_bits fbits) r))
+    | _, _ => None end
   else if is k "units.freq_of_ppm" then
-    match a with
-    | [VZ x] => Some (functional [VZ (f_to_bits (freq_from_scaled_ppm x))] o true)
-    | _ => None end
+    match a, o with
+    | [VZ x], [VZ gbits] =>
+        Some (functional [VZ (f_to_bits (freq_from_scaled_ppm x))] o (C18_freq_of_ppm_ok x (f_of_bits gbits)))
+    | _, _ => None end
   else if is k "units.ppm_roundtrip" then
     match a, o with
     | [VZ x], [VZ back] =>
@@ -63,18 +65,27 @@ Definition glue_C18 (k : string) (a o : list value) : option verdict :=
     | [VZ i], [VZ d] => Some (functional [VZ (csptp_dur_of_interval i)] o (C18_interval_ok i d))
     | _, _ => None end
   else if is k "csptp.formulas" then
-    match a with
-    | [VZ t0; VZ t1; VZ t2; VZ t3; VZ c1; VZ c3; VZ utc] =>
+    match a, o with
+    | [VZ t0; VZ t1; VZ t2; VZ t3; VZ c1; VZ c3; VZ utc], [VZ off; VZ mpd; VZ c2s; VZ s2c] =>
         Some (functional [VZ (csptp_clock_offset t0 t1 t2 t3 c1 c3); VZ (csptp_mean_path_delay t0 t1 t2 t3 c1 c3);
-                          VZ (csptp_c2s_delay t0 t1 c1 utc); VZ (csptp_s2c_delay t2 t3 c3 utc)] o true)
-    | _ => None end
+                          VZ (csptp_c2s_delay t0 t1 c1 utc); VZ (csptp_s2c_delay t2 t3 c3 utc)] o
+                (C18_formulas_ok t0 t1 t2 t3 c1 c3 utc off mpd c2s s2c))
+    | _, _ => None end
   else if is k "csptp.recover" then
     (* args: t0 t2 theta delta c1 c3; observed: offset, mean path delay computed by the implementation *)
     match a, o with
     | [VZ t0; VZ t2; VZ theta; VZ delta; VZ c1; VZ c3], [VZ off; VZ mpd] =>
         let t1 := t0 + theta + delta + c1 in let t3 := t2 - theta + delta + c3 in
         Some (functional [VZ (csptp_clock_offset t0 t1 t2 t3 c1 c3); VZ (csptp_mean_path_delay t0 t1 t2 t3 c1 c3)] o
-                ((off =? theta) && (mpd =? delta))%bool)
+                (C18_recover_ok theta delta c1 c3 off mpd))
+    | _, _ => None end
+  else if is k "csptp.recover_delays" then
+    (* args: t0 t2 theta d1 d2 c1 c3 utc; observed: C2SDelay, S2CDelay computed by the implementation *)
+    match a, o with
+    | [VZ t0; VZ t2; VZ theta; VZ d1; VZ d2; VZ c1; VZ c3; VZ utc], [VZ c2s; VZ s2c] =>
+        let t1 := t0 + theta + d1 + c1 + utc in let t3 := t2 - theta + d2 + c3 - utc in
+        Some (functional [VZ (csptp_c2s_delay t0 t1 c1 utc); VZ (csptp_s2c_delay t2 t3 c3 utc)] o
+                (C18_delays_ok theta d1 d2 c1 c3 utc c2s s2c))
     | _, _ => None end
   else None.
 
